@@ -21,6 +21,7 @@ RULE += (" " + 'Hosts whose fault only happens when a later statement runs them:
 RULE += (" " + 'Module parameters overridden with a value of another type (named operand, call result, literal, selected operand).')
 RULE += (" " + 'Let statements whose value does not fit a constraint given by a name bound earlier (exemplar, named constraint, tuple exemplar).')
 RULE += (" " + "Calls of a function that uses its parameter as an int with an argument of another type that is a name, selected field, expression of names, call result or literal (judged when the checker finds it statically; found at run time the fault is in the callee's body: no verdict).")
+RULE += (" " + 'Round 8: host function-body-via-call-chain: the faulty function is reached through 1, 2, 4, 7, 8, 9, 10, 13, 21 or 40 helper functions, each defined in a statement of its own; the primary position stays in the faulty statement and the top-level calling statement is listed under VIA however long the chain is.')
 
 POS_RE = re.compile(r"line: ([0-9]+) column: ([0-9]+)")
 VIA_RE = re.compile(r"VIA: (?:file: \S+ )?line: ([0-9]+) column: ([0-9]+)")
